@@ -268,7 +268,7 @@ PROPS["C08"] = {
     "bounds": {"datagram": "0..65507 bytes", "read_buffer": "1..2^31", "events": "3 consecutive readUDP calls"},
     "outside": ["IPv6 sources in this harness", "arrival interleavings of several senders (kernel queue)"],
     "assumptions": ["ghost kernel contract for recvfrom/sendto"],
-    "units": [dict(_LOOP_COMMON, name="loop-udp", files=["harness/gnet/vloop_world.go", "harness/gnet/c08_udp.go"])],
+    "units": [dict(_LOOP_COMMON, name="loop-udp", files=["harness/gnet/vloop_world.go", "harness/gnet/c14_pick.go", "harness/gnet/c08_udp.go"])],
 }
 
 PROPS["C01"] = {
